@@ -313,6 +313,11 @@ func (w *c32World) waitFor(what string, cond func() bool) bool {
 }
 
 func newC32World(r *verifkit.R, phase string, ci int, rng *verifkit.Rand, keepalive time.Duration) *c32World {
+	return newC32WorldT(r, phase, ci, rng, keepalive, time.Hour)
+}
+
+// newC32WorldT: keepalive = KeepaliveInterval, kaTimeout = KeepaliveTimeout of manager A.
+func newC32WorldT(r *verifkit.R, phase string, ci int, rng *verifkit.Rand, keepalive, kaTimeout time.Duration) *c32World {
 	w := &c32World{r: r, phase: phase, ci: ci, rng: rng, net: c32memnet.New(),
 		conns: map[*peer.Connection]*c32ConnInfo{}, bySerial: map[uint64]*c32ConnInfo{},
 		memA: map[uint64]*c32memnet.Conn{}, bEnds: map[uint64]*peer.Connection{}, holdNext: map[*peer.Connection]int{},
@@ -330,7 +335,7 @@ func newC32World(r *verifkit.R, phase string, ci int, rng *verifkit.Rand, keepal
 	cfg := peer.DefaultManagerConfig(w.idA, w.trA)
 	cfg.HandshakeTimeout = 10 * time.Second
 	cfg.KeepaliveInterval = keepalive
-	cfg.KeepaliveTimeout = time.Hour
+	cfg.KeepaliveTimeout = kaTimeout
 	cfg.KeepaliveJitter = 0
 	cfg.ReconnectConfig = peer.ReconnectConfig{InitialDelay: 3 * time.Millisecond, MaxDelay: 12 * time.Millisecond, Multiplier: 2, Jitter: 0}
 	cfg.OnPeerConnected = func(c *peer.Connection) {
@@ -632,7 +637,9 @@ func TestVerif_C32Manager(t *testing.T) {
 	r.Rule("one case = a real peer.Manager A and harness-owned remote ends for identity B over the in-memory transport, PRNG walk of " +
 		"simultaneous outbound/inbound dials, frames written on every remote end (registered, rejected, torn down), remote close, " +
 		"keepalive-send failure (two teardown notifications) and Disconnect(), with one teardown held at the peer.disconnect.enter hook until a " +
-		"replacement connection is registered; non-trivial = at least one rejected duplicate or one stale teardown judged; distinct by walk")
+		"replacement connection is registered; phase idle = keepalive timeout 20-50 ms with a 10 s interval, the registered link stays silent for longer than the timeout, " +
+		"then 1-2 duplicate connections of the same identity complete the handshake (either direction) and are later closed by the remote end; " +
+		"non-trivial = at least one rejected duplicate or one stale teardown judged; distinct by walk")
 	if !verifhook.Enabled {
 		r.Inconclusive("verifhook not compiled in (build tag verif missing)")
 		return
@@ -644,6 +651,9 @@ func TestVerif_C32Manager(t *testing.T) {
 	}
 	n := r.N(160, 2500)
 	r.ParCases("walk", n, 8, func(ci int, rng *verifkit.Rand) { c32ManagerCase(r, "walk", ci, rng) })
+	// duplicates arriving on a link that has been silent for longer than the keepalive timeout
+	r.ParCases("idle", r.N(80, 1200), 8, func(ci int, rng *verifkit.Rand) { c32IdleDuplicateCase(r, "idle", ci, rng) })
+	r.Require("idle_duplicates_judged", 50)
 	c32HookCalls.Lock()
 	enters := c32HookCalls.enter
 	c32HookCalls.Unlock()
@@ -1130,5 +1140,107 @@ func c32AtomicCase(r *verifkit.R, phase string, ci int, rng *verifkit.Rand) {
 		time.Sleep(15 * time.Millisecond) // detection only (> reconnect MaxDelay); absence is not a verdict
 		settle()
 		w.check("end of case")
+	}
+}
+
+// c32IdleDuplicateCase: a healthy but idle link must keep its registration against a
+// duplicate; keepalives are rare (interval 10 s) and the keepalive timeout is tiny, so the
+// registered connection has been silent for longer than the timeout when the duplicate arrives.
+func c32IdleDuplicateCase(r *verifkit.R, phase string, ci int, rng *verifkit.Rand) {
+	timeout := time.Duration(rng.Range(20, 50)) * time.Millisecond
+	w := newC32WorldT(r, phase, ci, rng, 10*time.Second, timeout)
+	defer w.close()
+	settle := func() {
+		w.waitFor("A to finish every inbound handshake", func() bool { return w.acceptsDone >= w.acceptsStarted })
+	}
+	judged := 0
+	defer func() {
+		w.mu.Lock()
+		fp := fmt.Sprintf("idle|%v|%s", timeout, strings.Join(w.steps, ";"))
+		w.mu.Unlock()
+		r.Eval(fp, judged > 0)
+	}()
+	if rng.Bool() {
+		w.dialOut()
+	} else {
+		w.dialIn()
+	}
+	settle()
+	if !w.waitFor("a registered connection", func() bool { return w.mgr.GetPeer(w.idB) != nil }) {
+		return
+	}
+	x := w.registered()
+	xs := c32Serial(x.LocalAddr())
+	w.sendOnAll(2)
+	w.check("first connection")
+	rounds := rng.Range(1, 2)
+	for round := 0; round < rounds && !w.broken; round++ {
+		// precondition (not a verdict): nothing read or written on x for longer than the timeout
+		if !w.waitFor("the registered link to have been silent for longer than the keepalive timeout", func() bool {
+			return time.Since(x.LastActivity()) > timeout+2*time.Millisecond
+		}) {
+			return
+		}
+		w.mu.Lock()
+		known := map[uint64]bool{}
+		for s := range w.bEnds {
+			known[s] = true
+		}
+		callbacksBefore := len(w.discCalls)
+		w.mu.Unlock()
+		dir := "peer dials"
+		if rng.Bool() {
+			dir = "A dials"
+			w.dialOut()
+		} else {
+			w.dialIn()
+		}
+		settle()
+		w.logf("duplicate (%s) after conn#%d was silent for > %v", dir, xs, timeout)
+		if w.registered() != x && !c32Closed(x) {
+			now := w.registered()
+			ns := uint64(0)
+			if now != nil {
+				ns = c32Serial(now.LocalAddr())
+			}
+			w.violate("idle-duplicate:registered-open-connection-replaced", fmt.Sprintf(
+				"conn#%d was registered, open and merely idle (> keepalive timeout %v, keepalive interval 10 s); a duplicate connection took its registration (now conn#%d) while conn#%d stays open", xs, timeout, ns, xs))
+			return
+		}
+		w.sendOnAll(2)
+		w.check("after a duplicate on an idle link")
+		if w.broken {
+			return
+		}
+		// the remote side gives up the duplicate(s): the registered connection must not notice
+		w.mu.Lock()
+		var dups []*peer.Connection
+		for s, c := range w.bEnds {
+			if !known[s] && s != xs {
+				dups = append(dups, c)
+			}
+		}
+		w.mu.Unlock()
+		for _, c := range dups {
+			c.Close()
+		}
+		time.Sleep(2 * time.Millisecond) // detection only: a teardown caused by the duplicate would have run by now
+		w.mu.Lock()
+		callbacks := len(w.discCalls) - callbacksBefore
+		w.mu.Unlock()
+		if w.registered() != x || c32Closed(x) {
+			w.violate("idle-duplicate:registration-lost-when-duplicate-closed", fmt.Sprintf(
+				"after the duplicate was closed by the remote side conn#%d is no longer the registered open connection (OnPeerDisconnect calls: %d)", xs, callbacks))
+			return
+		}
+		if callbacks > 0 {
+			w.violate("idle-duplicate:disconnect-reported-while-original-registered", fmt.Sprintf(
+				"%d OnPeerDisconnect call(s) were delivered for the identity although conn#%d stayed registered and open throughout", callbacks, xs))
+			return
+		}
+		w.sendOnAll(2)
+		w.check("after the duplicate was closed")
+		judged++
+		r.Add("idle_duplicates_judged", 1)
 	}
 }
